@@ -325,7 +325,7 @@ PROPS = {
     "generators": [("c04", 8000, 80000), ("c04build", 1600, 24000)],
     "translators": ["translator_c08", "translator_c04"],
     "modules": ["S2.IndexBuild", "S2.Generated.ClipFns", "S2.Generated.ContainFns", "S2.Contain", "S2.Pred", "S2.Exact", "S2.STUV", "S2.F64", "S2.CellID", "S2.Hilbert"],
-    "rule": "exact judge = crossing parity from OriginPoint with the exact orientation predicate (S2.Contain over S2.Pred.exactDecision). "
+    "rule": "c04orient: PolygonFromOrientedLoops of oriented loops (disc with a clockwise hole, two discs, bands of half-width 1e-16 .. 0.3 rad around a great circle, a single loop within 1e-15 of a great circle) and of the reversed loops must partition the sphere (judged on every probe off the edge planes); exact judge = crossing parity from OriginPoint with the exact orientation predicate (S2.Contain over S2.Pred.exactDecision). "
             "c04contain: valid loops (star-shaped about a centre at a pole / cube corner / face-edge midpoint / face centre / near a seam / anywhere; "
             "3..2000 vertices incl. 30..35 around the 32-vertex brute-force threshold; radius 1e-7 .. hemisphere; regular or jittered; "
             "snapped to cell centres or not; counter-clockwise or clockwise (= large complement); loops from cells of every level; "
